@@ -338,13 +338,31 @@ func (g *gen) victim() (string, bool) {
 	return hx.Pick(g.r, xs), true
 }
 
+// nearMtime is an mtime close to old: 1 ns, 1 µs or most of a second away inside the same
+// second, or exactly one second later (digests must see every one of them).
+func (g *gen) nearMtime(old int64) int64 {
+	sec := old / 1e9 * 1e9
+	cands := []int64{old + 1e9}
+	for _, c := range []int64{old + 1, old + 1000, sec + 999000000, sec + 1, sec} {
+		if c != old && c/1e9 == old/1e9 && c > 0 {
+			cands = append(cands, c)
+		}
+	}
+	return hx.Pick(g.r, cands)
+}
+
 func (g *gen) opSrc() {
 	switch c := g.r.Intn(20); {
 	case c < 4: // edit: new mtime, size kept (same digits) or changed
 		if n, ok := g.pickRegular(); ok {
 			st := g.src[n]
-			st.mtime = g.nextMtime()
-			if g.r.Bool() {
+			if g.r.Intn(3) == 0 {
+				st.mtime = g.nearMtime(st.mtime)
+				g.rep.Count("gen:src-near-mtime")
+			} else {
+				st.mtime = g.nextMtime()
+			}
+			if g.r.Intn(3) == 0 {
 				st.size = g.size()
 			}
 			g.setSrc(n, st)
@@ -353,7 +371,12 @@ func (g *gen) opSrc() {
 	case c < 6: // touch
 		if n, ok := g.pickRegular(); ok {
 			st := g.src[n]
-			st.mtime = g.nextMtime()
+			if g.r.Bool() {
+				st.mtime = g.nearMtime(st.mtime)
+				g.rep.Count("gen:src-near-mtime")
+			} else {
+				st.mtime = g.nextMtime()
+			}
 			g.setSrc(n, st)
 			g.rep.Count("gen:src-touch")
 		}
@@ -505,7 +528,26 @@ func (g *gen) scenario() int {
 		g.buildFull()
 	}
 	before := len(g.ops)
-	switch g.r.Intn(7) {
+	switch g.r.Intn(9) {
+	case 7: // same-size edit or touch a hair away in time (same second, next second), build
+		if n, ok := g.pickRegular(); ok {
+			st := g.src[n]
+			st.mtime = g.nearMtime(st.mtime)
+			g.setSrc(n, st)
+			g.buildFull()
+			g.rep.Count("gen:scenario-near-mtime")
+		}
+	case 8: // one output is deleted or overwritten, nothing else: only its owner is executed
+		if outs := g.fsOuts(g.rules); len(outs) > 0 {
+			o := hx.Pick(g.r, outs)
+			if g.r.Bool() {
+				g.emit("out del %s", o)
+			} else {
+				g.emit("out corrupt %s size=%d", o, g.r.Intn(300))
+			}
+			g.buildFull()
+			g.rep.Count("gen:scenario-tamper-one-output")
+		}
 	case 5: // the records outlive the expiry: everything is rebuilt once, and then nothing
 		g.emit("cache age")
 		g.buildFull()
